@@ -172,6 +172,7 @@ class Runner(object):
                                 segment_size_tx_initial=cfg.segment_size_tx_initial,
                                 require_tls=cfg.require_tls, passive=passive)
         self.mops = {'A': [], 'B': []}
+        self.accepted = {'A': [], 'B': []}   # data of every send_bundle_data call that returned a transfer id
         self.snaps = {'A': [], 'B': []}
         self.opres = []
         self.applied = []   # every driver op, for exact replay
@@ -205,6 +206,8 @@ class Runner(object):
             self._record(e, ('OStart',))
         elif kind == 'send':
             res = sysm.apply(('send', e, data_bytes(oper[2])))
+            if res is not None and not res.get('exc'):
+                self.accepted[e].append(data_bytes(oper[2]))
             self._record(e, ('OSend', oper[2]))
         elif kind == 'term':
             res = sysm.apply(oper)
@@ -217,10 +220,8 @@ class Runner(object):
             self._record(e, ('OPop', oper[2]))
         elif kind == 'txpump':
             (_k, _e, which, accept) = oper
-            # a send() towards a closed peer fails: the model sees accept = 0
-            peer_gone = sysm.ep[e].sock.peer.closed
             res = sysm.apply(oper)
-            self._record(e, ('OTxPump', which == 'idle', 0 if peer_gone else accept))
+            self._record(e, ('OTxPump', which == 'idle', accept))
         elif kind == 'rxpump':
             sock = sysm.ep[e].sock
             size = min(oper[2], CHUNK, len(sock.inbox))
